@@ -39,7 +39,7 @@ def anchors():
 
 def cases(seed, tier):
     q = tier == "quick"
-    n = 64 if q else 960
+    n = 120 if q else 1500
     fams = ["mob", "mob", "vor", "mob"]
     return [{"fam": fams[i % 4], "seed": [seed, 1, i], "count": 2} for i in range(n)]
 
